@@ -597,6 +597,73 @@ theorem attend_is_transposed_product (table query : Tensor R) (q : List Nat) (v 
 
 end embed
 
+/-! ### ConvTranspose: output lengths and the CIRCULAR wrap-sum (one axis) -/
+
+/-- `padding='SAME'`: the fractionally strided convolution (input dilated by the stride, `_conv_transpose_padding`
+pads, stride-1 window of the dilated kernel) has length `n·s` -/
+theorem conv_transpose_out_len_same (n kd s : Nat) (hn : 1 ≤ n) (hk : 1 ≤ kd) (hs : 1 ≤ s) :
+    outLen (((dilatedLen n s : Nat) : Int) + (transposePads kd s true).1 + (transposePads kd s true).2).toNat kd 1 = n * s := by
+  have hd : dilatedLen n s = (n - 1) * s + 1 := by simp [dilatedLen]; omega
+  have hsum : (transposePads kd s true).1 + (transposePads kd s true).2 = (kd : Int) + s - 2 := by
+    simp only [transposePads, if_true]; ring
+  have hm : (((dilatedLen n s : Nat) : Int) + (transposePads kd s true).1 + (transposePads kd s true).2).toNat
+      = (n - 1) * s + 1 + kd + s - 2 := by
+    rw [Int.add_assoc, hsum, hd]; omega
+  rw [hm]
+  have hns : n * s = (n - 1) * s + s := by
+    obtain ⟨m, rfl⟩ : ∃ m, n = m + 1 := ⟨n - 1, by omega⟩
+    simp; ring
+  simp only [outLen, Nat.div_one]
+  split <;> omega
+
+/-- `padding='VALID'` (also the first stage of CIRCULAR): length `n·s + max(k_d − s, 0)` -/
+theorem conv_transpose_out_len_valid (n kd s : Nat) (hn : 1 ≤ n) (hk : 1 ≤ kd) (hs : 1 ≤ s) :
+    outLen (((dilatedLen n s : Nat) : Int) + (transposePads kd s false).1 + (transposePads kd s false).2).toNat kd 1
+      = n * s + (kd - s) := by
+  have hd : dilatedLen n s = (n - 1) * s + 1 := by simp [dilatedLen]; omega
+  have hsum : (transposePads kd s false).1 + (transposePads kd s false).2 = (kd : Int) + s - 2 + ((kd - s : Nat) : Int) := by
+    simp only [transposePads, Bool.false_eq_true, if_false]
+    split <;> (push_cast; omega)
+  have hm : (((dilatedLen n s : Nat) : Int) + (transposePads kd s false).1 + (transposePads kd s false).2).toNat
+      = (n - 1) * s + 1 + kd + s - 2 + (kd - s) := by
+    rw [Int.add_assoc, hsum, hd]; omega
+  rw [hm]
+  have hns : n * s = (n - 1) * s + s := by
+    obtain ⟨m, rfl⟩ : ∃ m, n = m + 1 := ⟨n - 1, by omega⟩
+    simp; ring
+  simp only [outLen, Nat.div_one]
+  split <;> omega
+
+/-- CIRCULAR: the VALID result of length `l` is padded by `(−(l − P)) mod 2P` to an odd number of periods `P = n·s` … -/
+theorem wrap_sum_total_odd_periods (l P : Nat) (hP : 0 < P) :
+    (((l : Int) + (-((l : Int) - P)) % (2 * P : Int)) % (2 * P : Int)) = P := by
+  rw [Int.add_emod_emod]
+  have : (l : Int) + -((l : Int) - P) = P := by ring
+  rw [this]
+  exact Int.emod_eq_of_lt (by omega) (by omega)
+
+/-- … and the periods are summed: position `p` of the circular output collects every position `j·P + p` of the padded
+array (left pad `⌊diff/2⌋` for a transposed kernel, `⌈diff/2⌉` otherwise), so the output length is the period -/
+theorem wrap_sum_get {R : Type} [Zero R] [Add R] [Mul R] (y : Tensor R) (ax period : Nat) (tk : Bool) (hp : period ≠ 0)
+    (idx : List Nat) (h : inBounds (y.shape.set ax period) idx = true) :
+    (wrapSumAxis y ax period tk).shape = y.shape.set ax period ∧
+    (wrapSumAxis y ax period tk).get idx =
+      sumOver (List.range ((nth y.shape ax + ((-((nth y.shape ax : Nat) : Int) + period) % (2 * period : Int)).toNat) / period)) (fun j =>
+        if (if tk then ((-((nth y.shape ax : Nat) : Int) + period) % (2 * period : Int)).toNat / 2
+              else (((-((nth y.shape ax : Nat) : Int) + period) % (2 * period : Int)).toNat + 1) / 2) ≤ j * period + nth idx ax 0 ∧
+            j * period + nth idx ax 0 <
+              (if tk then ((-((nth y.shape ax : Nat) : Int) + period) % (2 * period : Int)).toNat / 2
+                else (((-((nth y.shape ax : Nat) : Int) + period) % (2 * period : Int)).toNat + 1) / 2) + nth y.shape ax
+        then y.get (idx.set ax (j * period + nth idx ax 0 -
+              (if tk then ((-((nth y.shape ax : Nat) : Int) + period) % (2 * period : Int)).toNat / 2
+                else (((-((nth y.shape ax : Nat) : Int) + period) % (2 * period : Int)).toNat + 1) / 2)))
+        else 0) := by
+  have e : (-(((nth y.shape ax : Nat) : Int) - period)) = (-((nth y.shape ax : Nat) : Int) + period) := by ring
+  constructor
+  · simp [wrapSumAxis, hp, Tensor.ofFn]
+  · simp only [wrapSumAxis, hp, if_false, e]
+    rw [get_ofFn _ _ h]
+
 /-! ### the three repaired defects: the model is the repaired code, the code as found is kept as `…Orig` -/
 
 /-- pooling with explicit padding pairs and two batch dimensions: the code as found built a padding list one entry
@@ -652,25 +719,54 @@ theorem groupnorm_repeat_axis_orig_counterexample :
   decide +kernel
 
 section groupnorm
-/- Full statement (`group_norm_formula`, not proved in general): every piece of `groupNormPieces x G red … none` at index
-   `idx` carries the statistics of the positions that agree with `idx` outside the leading reduction axes and whose
-   channel lies in the group of `idx`'s channel.  Proved: the step the repaired defect was in — repeating along the last
-   axis reads group `ch / groupSize` — and the counter-example for the code as found.  Missing: the identification of
-   the reshaped view (`statsShape`, 1s at the reduced axes) with `keep ++ [C]` for arbitrary reduction-axis sets. -/
+
 /-- repaired (and Linen): repeating the statistics tensor `keep ++ [G]` along its *last* axis makes channel `ch` read
 the statistics of its own group `ch / groupSize`, at every kept position -/
-theorem group_norm_formula_partial {α : Type} (t : Tensor α) (keep : List Nat) (g gs : Nat) (d : α)
+theorem groupnorm_repeat_last_axis {α : Type} (t : Tensor α) (keep : List Nat) (g gs : Nat) (d : α)
     (ht : t.shape = keep ++ [g]) (kidx : List Nat) (ch : Nat) (hk : inBounds keep kidx = true) (hch : ch < g * gs) :
-    (repeatAxis t keep.length gs d).getD (kidx ++ [ch]) d = t.getD (kidx ++ [ch / gs]) d := by
-  have hl := inBounds_length hk
-  have hb : inBounds ((keep ++ [g]).set keep.length (nth (keep ++ [g]) keep.length * gs)) (kidx ++ [ch]) = true := by
-    have : (keep ++ [g]).set keep.length (nth (keep ++ [g]) keep.length * gs) = keep ++ [g * gs] := by
-      simp [nth, List.set_append_right]
-    rw [this]
-    exact inBounds_append keep kidx [g * gs] [ch] hk (by simp [inBounds, hch])
-  simp only [repeatAxis, ht]
-  rw [getD_ofFn _ _ _ hb]
-  simp [nth, ← hl, List.set_append_right]
+    (repeatAxis t keep.length gs d).getD (kidx ++ [ch]) d = t.getD (kidx ++ [ch / gs]) d :=
+  repeat_last_axis t keep g gs d ht kidx ch hk hch
+
+/-- `GroupNorm` (Linen, and NNX as repaired) at full strength.  For every input rank ≥ 1, every reduction-axis
+specification (default or explicit, negative / repeated entries allowed) that the layer accepts, every group count
+dividing the channels, mask and affine parameters: the piece at every index `idx` carries the statistics of exactly
+one cell of the grouped tensor — the one at `idx`'s coordinates on the non-reduced leading axes and at the group
+`idx[-1] / groupSize` of its channel (`groupStatsAt`: reduced over the leading reduction axes and the channels of that
+group, masked-in entries only) — and the scale / bias of its channel.  The data movement of the code (statistics
+tensor `keep ++ [G]` → repeat → view with the statistics shape → broadcast) is thereby identified with the documented
+formula for arbitrary reduction-axis sets containing the feature axis. -/
+theorem group_norm_formula (x : Tensor Int) (numGroups : Nat) (redAxes : Option (List Int)) (useFast : Bool)
+    (mask scale bias : Option (Tensor Int)) (ps : List NormPiece)
+    (hok : groupNormPieces x numGroups redAxes useFast mask scale bias none = .ok ps) :
+    ps = (indices x.shape).map (fun idx =>
+      ⟨groupStatsAt x (nth x.shape (x.rank - 1) / numGroups) (groupNormRed x.rank redAxes).dropLast
+          ((List.range (x.rank - 1)).filter (fun a => !((groupNormRed x.rank redAxes).dropLast.contains a))) useFast mask
+          (((List.range (x.rank - 1)).filter (fun a => !((groupNormRed x.rank redAxes).dropLast.contains a))).map (fun a => nth idx a 0)
+            ++ [nth idx (x.rank - 1) 0 / (nth x.shape (x.rank - 1) / numGroups)]),
+       featureParam x.shape [x.rank - 1] scale 1 idx, featureParam x.shape [x.rank - 1] bias 0 idx⟩) := by
+  simp only [groupNormPieces, bind, Except.bind, pure, Except.pure] at hok
+  by_cases h0 : x.rank = 0
+  · simp [h0] at hok
+  · by_cases h1 : (groupNormRed x.rank redAxes).getLast? ≠ some (x.rank - 1)
+    · simp [h0, h1] at hok
+    · by_cases h2 : numGroups = 0 ∨ nth x.shape (x.rank - 1) % numGroups ≠ 0
+      · simp [h0, h1, h2] at hok
+      · simp only [h0, h1, h2, if_false, Option.getD_none] at hok
+        have hlt : ¬ (((List.range (x.rank - 1)).filter (fun a => !((groupNormRed x.rank redAxes).dropLast.contains a))).length + 1
+            ≤ ((List.range (x.rank - 1)).filter (fun a => !((groupNormRed x.rank redAxes).dropLast.contains a))).length) := by omega
+        simp only [hlt, if_false, Except.ok.injEq] at hok
+        rw [← hok]
+        have hp : (groupNormRed x.rank redAxes).Pairwise (· < ·) := by
+          cases redAxes <;> exact (canon_axes_sound _ _).1
+        have hlast := pairwise_dropLast_lt _ _ hp (by simpa using h1)
+        have hG : numGroups * (nth x.shape (x.rank - 1) / numGroups) = nth x.shape (x.rank - 1) := by
+          have : nth x.shape (x.rank - 1) % numGroups = 0 := by
+            by_contra hne; exact h2 (Or.inr hne)
+          exact Nat.mul_div_cancel' (Nat.dvd_of_mod_eq_zero this)
+        exact groupNormCore_formula x numGroups _ useFast mask scale bias (by omega) hlast hG
+
+example : (groupNormPieces (⟨[2, 3, 4], (List.range 24).map (fun i => (i : Int)) |>.toArray⟩ : Tensor Int) 2 (some [-1, 1]) true
+    none none none none).toBool = true := by decide +kernel
 
 end groupnorm
 
@@ -749,33 +845,77 @@ theorem dense_formula (x k : Tensor R) (bias : Option (Tensor R)) (lead : List N
       rw [get_ofFn _ _ (by rw [hshape]; exact hb), hdg, hyr, List.drop_left']
       rfl
 
-/- Full statement (`dense_general_formula`, not proved in general):
-   for every rank, every `axis` tuple (negative / unsorted allowed), `batch_dims = (0..m)` and feature tuple,
-   `denseGeneral axis batchDims nFeat x K bias = ok y` with
-   `y[b…, r…, f…] = Σ_{a…} x[place b r a]·K[b…, a…, f…] + bias[b…, f…]`
-   where `place` puts `b` at the batch positions, `a` at the *sorted* canonical axes and `r` at the remaining
-   positions in order.  Proved: the axis canonicalisation (`normalize_axes_sound`), the last-axis `Dense` case at every
-   rank through the same `dotGeneral` specification (`dense_formula`), and below the `DenseGeneral(axis=-1)` default
-   without bias.  Missing: `scatterIdx` for arbitrary contraction / batch position sets and the bias reshape-broadcast
-   index lemma for `expanded_batch_shape`; those cases are tied to the code by the correspondence run only. -/
-theorem dense_general_formula_partial (x k : Tensor R) (kin nf : Nat) (lead : List Nat) (f : Nat)
-    (hr : 1 ≤ x.rank) (hks : k.shape = [kin, nf]) (hin : nth x.shape (x.rank - 1) = kin)
-    (hl : lead.length + 1 = x.rank)
-    (hb : inBounds ((List.range (x.rank - 1)).map (nth x.shape ·) ++ [nf]) (lead ++ [f]) = true) :
-    ∃ y, denseGeneral [-1] [] 1 x k none = .ok y ∧
-      y.get (lead ++ [f]) = sumOver (List.range kin) (fun j => x.get (lead ++ [j]) * k.get [j, f]) := by
-  have hk : k.rank = 2 := by simp [Tensor.rank, hks]
-  have hax : normalizeAxes x.rank [-1] = [x.rank - 1] := by
-    simp [normalizeAxes, sortNat, insertSorted, normAxis]; omega
-  have hn1 : nth k.shape 1 = nf := by simp [nth, hks]
-  have hdg := dotGeneral_last_get x k lead f hr hk hl (by rw [hn1]; exact hb)
-  refine ⟨dotGeneral x k [x.rank - 1] [0] [] [], ?_, by rw [hdg, hin]⟩
-  have hlt : ¬ (x.rank ≤ x.rank - 1) := by omega
-  have hnil : normalizeAxes x.rank [] = [] := rfl
-  have hsh : nth x.shape (x.rank - 1) = kin := hin
-  simp only [denseGeneral, consecutiveFromZero, hax, hnil, hk, hks, bind, Except.bind, pure, Except.pure]
-  simp [hlt, hsh, nth] at hsh ⊢
-  simp [hsh]
+/-- `DenseGeneral` / `nnx.LinearGeneral` at full strength.  For every input rank, every `axis` tuple (negative, unsorted
+entries allowed; `ax` is its sorted canonical form), batch dimensions `0 … nb−1` and feature tuple: whenever the layer
+accepts the configuration, the output at batch coordinates `bidx`, remaining input coordinates `r` and feature
+coordinates `f` is
+
+  `Σ_{a ∈ indices(shape at ax)} x[place bidx r a] · K[bidx ++ a ++ f]  (+ bias[bidx ++ f])`
+
+where `place bidx r a = scatterIdx rank (zip (0…nb−1) bidx ++ zip ax a) r` is characterised by `place_assigned` and
+`place_free` below: it carries `bidx` at the batch positions, `a` at the sorted contraction axes and `r`, in order, at
+all other positions.  The bias (kernel-shaped `batch ++ features`) is the one reshaped to `expanded_batch_shape +
+features` and broadcast by numpy's rule. -/
+theorem dense_general_formula (axis batchDims : List Int) (nFeat : Nat) (x k : Tensor R) (bias : Option (Tensor R))
+    (y : Tensor R) (hok : denseGeneral axis batchDims nFeat x k bias = .ok y)
+    (nb : Nat) (bidx r f feats : List Nat)
+    (hbd : normalizeAxes x.rank batchDims = List.range nb) (hbl : bidx.length = nb)
+    (hr : r.length = ((List.range x.rank).filter
+            (fun a => !((normalizeAxes x.rank axis).contains a) && !((List.range nb).contains a))).length)
+    (hkr : k.rank = nb + (normalizeAxes x.rank axis).length + f.length)
+    (hnb : nb ≤ x.rank) (hge : ∀ a ∈ normalizeAxes x.rank axis, nb ≤ a)
+    (hfeats : k.shape.drop (nb + (normalizeAxes x.rank axis).length) = feats)
+    (hbs : ∀ b, bias = some b → b.shape = (List.range nb).map (nth x.shape ·) ++ feats)
+    (hbi : inBounds ((List.range nb).map (nth x.shape ·)) bidx = true) (hfi : inBounds feats f = true)
+    (hb : inBounds y.shape (bidx ++ r ++ f) = true) :
+    y.get (bidx ++ r ++ f) =
+      match bias with
+      | none =>
+        sumOver (indices ((normalizeAxes x.rank axis).map (nth x.shape ·))) (fun a =>
+          x.get (scatterIdx x.rank ((List.range nb).zip bidx ++ (normalizeAxes x.rank axis).zip a) r) * k.get (bidx ++ a ++ f))
+      | some b =>
+        sumOver (indices ((normalizeAxes x.rank axis).map (nth x.shape ·))) (fun a =>
+          x.get (scatterIdx x.rank ((List.range nb).zip bidx ++ (normalizeAxes x.rank axis).zip a) r) * k.get (bidx ++ a ++ f))
+        + b.get (bidx ++ f) := by
+  have hy : y = denseGeneralCore axis batchDims x k bias := by
+    simp only [denseGeneral, bind, Except.bind, pure, Except.pure] at hok
+    cases hc : denseGeneralCheck axis batchDims nFeat x k bias with
+    | error e => simp [hc] at hok
+    | ok u => simp [hc] at hok; exact hok.symm
+  subst hy
+  cases bias with
+  | none => exact denseGeneralCore_get_nobias axis batchDims x k nb bidx r f hbd hbl hr hkr hb
+  | some b =>
+    exact denseGeneralCore_get_bias axis batchDims x k b nb bidx r f feats hbd hbl hr hkr hnb hge hfeats (hbs b rfl) hbi hfi hb
+
+/-- non-vacuity: a rank-3 input, `axis = (-1, 1)` written unsorted, one batch dimension, two feature dimensions, bias -/
+example : (denseGeneral [-1, 1] [0] 2 (⟨[2, 2, 3], #[1, 2, 3, 4, 5, 6, 7, 8, 9, 10, 11, 12]⟩ : Tensor Int)
+    ⟨[2, 2, 3, 1, 2], (List.replicate 24 1).toArray⟩ (some ⟨[2, 1, 2], #[1, 2, 3, 4]⟩)).toBool = true := by decide
+
+omit [Zero R] [Add R] [Mul R] in
+/-- `place`: an assigned position carries its value (keys pairwise distinct — flax's batch and contraction axes are) -/
+theorem place_assigned (n : Nat) (keys vals rest : List Nat) (hn : keys.Nodup) (hl : keys.length = vals.length)
+    (j : Nat) (hj : j < keys.length) (hp : keys[j] < n) :
+    (scatterIdx n (keys.zip vals) rest)[keys[j]]'(by simp [scatterIdx_length, hp]) = vals[j]'(by omega) := by
+  rw [scatterIdx_getElem n _ _ _ hp]
+  simp only [scatterAt, find_zip_nodup keys vals hn hl j hj (by omega)]
+
+omit [Zero R] [Add R] [Mul R] in
+/-- `place`: the positions that are not keys, in increasing order, carry `rest` -/
+theorem place_free (n : Nat) (keys vals rest : List Nat) (hl : keys.length = vals.length)
+    (hr : rest.length = ((List.range n).filter (fun p => !(keys.contains p))).length) :
+    ((List.range n).filter (fun p => !(keys.contains p))).map (fun p => (scatterIdx n (keys.zip vals) rest).getD p 0) = rest := by
+  have hfree : (fun j => (((keys.zip vals).find? (fun q => decide (q.1 = j))).isNone)) = (fun p => !(keys.contains p)) := by
+    funext j; exact find_zip_isNone keys vals hl j
+  have h := scatterIdx_free n (keys.zip vals) rest (by rw [hfree]; exact hr)
+  rw [hfree] at h
+  refine Eq.trans ?_ h
+  apply List.map_congr_left
+  intro p hp
+  have hpn : p < n := List.mem_range.mp (List.mem_filter.mp hp).1
+  have : (scatterIdx n (keys.zip vals) rest).getD p 0 = (scatterIdx n (keys.zip vals) rest)[p]'(by simp [scatterIdx_length, hpn]) := by
+    simp [List.getD, scatterIdx_length, hpn]
+  rw [this, scatterIdx_getElem n _ _ p hpn]
 
 end dense
 
